@@ -183,6 +183,45 @@ fn proof_prog<G: CurveTag>(prog: crate::program::Program, col: &mut Collector, p
         if r.ok().flatten().as_ref() != Some(&e) {
             return Err(Failure::new("C11:roundtrip-uncompressed", "the uncompressed encoding of a proof does not decode back to the same object (or its length differs from uncompressed_size)", pj()));
         }
+        // points that are not on the curve, in the uncompressed form (x ‖ y with y changed): the
+        // validating decoder of that form must refuse them at every point slot
+        {
+            let mut u = vec![];
+            proof.serialize_uncompressed(&mut u).ok();
+            let ups = 2 * G::SC; // one uncompressed point
+            let npts = 11 + 2 * k;
+            for i in 0..npts {
+                let off = if i < 11 { i * ups } else if i < 11 + k { 11 * ups + 3 * G::SC + 8 + (i - 11) * ups } else { 11 * ups + 3 * G::SC + 8 + k * ups + 8 + (i - 11 - k) * ups };
+                if off + ups > u.len() {
+                    break;
+                }
+                let mut b = u.clone();
+                // second coordinate, lowest byte
+                let yb = off + G::SC;
+                b[yb] = b[yb].wrapping_add(1);
+                let single = G::deserialize_uncompressed_unchecked(&b[off..off + ups]);
+                let off_curve = match &single {
+                    Ok(pt) => ark_serialize::Valid::check(pt).is_err(),
+                    Err(_) => false,
+                };
+                if !off_curve {
+                    continue;
+                }
+                col.evals_add(1);
+                match guarded(|| R1CSProof::<G>::deserialize_uncompressed(&b[..]).is_ok()) {
+                    Ok(false) => {}
+                    Ok(true) => {
+                        return Err(Failure::new(
+                            "C11:invalid-accepted:uncompressed-off-curve",
+                            format!("the validating decoder of the uncompressed form accepts a point that is not on the curve (point slot {})", i),
+                            json!({"program": prog.to_json(), "slot": i, "encoding_hex": hex::encode(&b)}),
+                        ))
+                    }
+                    Err(pn) => return Err(Failure::new("C11:invalid-error-kind", format!("uncompressed decode of an off-curve point panicked: {}", pn), pj())),
+                }
+            }
+            col.class("uncompressed-off-curve-points");
+        }
         let mut c = vec![];
         proof.serialize_compressed(&mut c).ok();
         if c != e || proof.compressed_size() != e.len() {
